@@ -7,7 +7,7 @@ set -x
 VERIF_DET_N=${VERIF_DET_N:-200} ./vcheck selftest determinism || exit 1
 ./vcheck selftest sensitivity | tail -8
 ./vcheck selftest soundness | tail -4
-tools/battery.sh | tail -50
+tools/battery.sh | tail -90
 for p in C08 C09 C15 C18 C19 C20; do ./vcheck $p --tier quick || echo "CHECK $p FAILED"; done
 python3-vt - <<'PY'
 import json, jsonschema, glob
